@@ -245,7 +245,10 @@ class Repo:
         'biom/table.py': {'Table.to_hdf5', 'Table.from_hdf5',
                           'general_parser', 'vlen_list_of_str_parser',
                           'general_formatter', 'vlen_list_of_str_formatter'},
+        'biom/cli/table_validator.py': {'TableValidator._validate_hdf5'},
     }
+    # functions in which the loops over the two axes are unrolled as well
+    UNROLL_AXIS_LOOPS = {'TableValidator._validate_hdf5'}
 
     def _normalise(self, rel, tree):
         want = self.NORMALISE.get(rel)
@@ -265,7 +268,9 @@ class Repo:
                     walk(n.body, prefix + n.name + '.')
                 elif isinstance(n, ast.FunctionDef) and \
                         prefix + n.name in want:
-                    body[i] = normalize(n, tree, keep=keep)
+                    body[i] = normalize(
+                        n, tree, keep=None if prefix + n.name in
+                        self.UNROLL_AXIS_LOOPS else keep)
         walk(tree.body, '')
 
     def _load_pyx(self, rel, full):
